@@ -162,7 +162,40 @@ def pair_strategy(draw):
         else:
             right.append(other)
     right.extend(draw(st.lists(LINE, max_size=3)))
-    mode = draw(st.sampled_from(['list', 'lf', 'crlf', 'chunks', 'mixed', 'mixed2', 'regroup']))
+    mode = draw(st.sampled_from(['list', 'lf', 'crlf', 'chunks', 'mixed', 'mixed2', 'regroup', 'long', 'long']))
+    if mode == 'long':
+        # sizes where look-ahead windows and trimming thresholds start to matter: 26-70 lines a side, either unrelated texts (no common line
+        # for dozens of lines) or nearly identical ones (one line dropped / added / changed next to repeated lines)
+        import random
+        rnd = random.Random(draw(st.integers(0, 2 ** 30)))
+        n = rnd.randint(26, 70)
+        if rnd.random() < 0.5:
+            l2 = ['old line %d' % i for i in range(n)]
+            r2 = ['new line %d' % i for i in range(rnd.randint(26, 70))]
+            tail = ['end'] * rnd.choice([0, 0, 1, 2])
+            head = ['start'] * rnd.choice([0, 0, 1])
+            l2, r2 = head + l2 + tail, head + r2 + tail
+        else:
+            l2 = []
+            for i in range(n):
+                l2.append(rnd.choice(['', '', 'entry %d' % i, 'entry %d' % i, 'same', '}']))
+            r2 = list(l2)
+            for _ in range(rnd.choice([1, 1, 2, 3])):
+                i = rnd.randrange(len(r2))
+                op = rnd.random()
+                if op < 0.4:
+                    del r2[i]
+                elif op < 0.8:
+                    r2.insert(i, r2[i] if rnd.random() < 0.6 else 'added')
+                else:
+                    r2[i] = 'changed'
+            if rnd.random() < 0.5:
+                l2, r2 = r2, l2
+        form = rnd.choice(['list', 'lf', 'crlf'])
+        if form == 'list':
+            return l2, r2
+        nl2 = '\n' if form == 'lf' else '\r\n'
+        return nl2.join(l2), nl2.join(r2)
     if mode == 'regroup':
         # the same atoms cut into the same NUMBER of lines at different places, the atoms of a line glued with a separator a careless comparison
         # might itself use to glue lines (backslash-n as two characters, comma, NUL, ...): equal "joined" texts, different line lists
